@@ -515,3 +515,31 @@ fn c08_bad_packet_latches() {
     kani::cover!(!decode_ok);
     kani::cover!(decode_ok && hp == 5);
 }
+
+// @harness props=C04 tier=quick layer=L2
+// @harness funcs="Connection::decode_inbound_publish, ReceivedPacket::from_buffer, InboundPublish::{topic,payload,qos,retained,properties}"
+// @harness sym="topic byte (ASCII), packet id, payload byte, 1-byte property value" bounds="QoS 1 retained PUBLISH of 11 bytes with one property (PayloadFormatIndicator) in a 16-byte receive buffer, followed by garbage"
+// @harness assumes="core::str::from_utf8 replaced by utf8_ok"
+#[kani::proof]
+#[kani::unwind(8)]
+#[kani::stub(core::str::from_utf8, crate::verif_common::stub_from_utf8)]
+fn c04_decode_inbound_publish_fidelity() {
+    let t: u8 = kani::any();
+    kani::assume(t < 0x80);
+    let id: u16 = kani::any();
+    let pay: u8 = kani::any();
+    let pfi: u8 = kani::any();
+    let junk: [u8; 5] = kani::any();
+    // 33 09 | 00 01 t | id id | 02 01 pfi | pay | junk...
+    let mut rx = [0x33, 0x09, 0x00, 0x01, t, (id >> 8) as u8, id as u8, 0x02, 0x01, pfi, pay, junk[0], junk[1], junk[2], junk[3], junk[4]];
+    let mut tx = [0u8; 8];
+    let mut session = Session::new(ConfigBuilder::new(Buffers::new(&mut rx, &mut tx)));
+    let conn = Connection { session: &mut session, io: NoIo, event: ConnectEvent::Connected, live: true };
+    let m = conn.decode_inbound_publish(11);
+    assert!(m.topic().len() == 1 && m.topic().as_bytes()[0] == t, "C04: topic surfaced exactly as sent");
+    assert!(m.payload().len() == 1 && m.payload()[0] == pay, "C04: payload surfaced exactly as sent (and nothing of the bytes behind the packet)");
+    assert!(m.qos() == QoS::AtLeastOnce && m.retained(), "C04: QoS and retain flag surfaced as sent");
+    assert!(m.properties().size() == 2, "C04: the property block is exactly the packet's");
+    let mut it = m.properties().iter();
+    assert!(matches!(it.next(), Some(Ok(crate::Property::PayloadFormatIndicator(v))) if v == pfi), "C04: properties surfaced as sent");
+}
